@@ -56,6 +56,8 @@ def run(chk):
     shards_h += common.stage_histories(
         chk, ntraces=16 if q else 400, steps=50 if q else 120,
         nvars_choices=[6, 7, 8], tag='wide')
+    shards_h += common.stage_histories(chk, ntraces=16 if q else 600, steps=10 if q else 40,
+                                       nvars_choices=[3, 4], profile='stream', tag='st')
     # ---- sweeps ----
     allsyms = sweep.SPEC_PROP_BINARY + sweep.SPEC_QUANT
     tasks = []
